@@ -137,6 +137,25 @@ def search(chk, broken):
                                         {'op': 'calibration', 'v0': v0, 't0': t0, 'v1': v1, 't1': t1, 'observed': got, 'expected': v1,
                                          'python': f'from py_ballisticcalc import *; a=Ammo(DragModel(0.3,TableG7),Unit.MPS({v0!r}),Unit.Celsius({t0!r}),0,True); '
                                                    f'a.calc_powder_sens(Unit.MPS({v1!r}),Unit.Celsius({t1!r})); a.get_velocity_for_temp(Unit.Celsius({t1!r})) >> Unit.MPS'}))
+    # --- bare numbers mean the preferred unit (C07 for this API): incl. numbers that coincide with a stored raw value
+    try:
+        for pu in (U.Celsius, U.Kelvin, U.Fahrenheit, U.Rankin):
+            pbc.PreferredUnits.temperature = pu
+            v0, t0c = rng.uniform(300, 1000), rng.uniform(-20, 30)
+            a = pbc.Ammo(dm, U.MPS(v0), U.Celsius(t0c), rng.uniform(0.005, 0.03), True)
+            base_raw = a.powder_temp.raw_value               # the baseline as stored (Fahrenheit)
+            for x in (base_raw, a.powder_temp >> pu, 0.0, round(base_raw), rng.uniform(-30, 120)):
+                evals += 1
+                try:
+                    got = a.get_velocity_for_temp(x).raw_value
+                    exp = a.get_velocity_for_temp(pu(x)).raw_value
+                except Exception:  # noqa
+                    continue
+                if got != exp:
+                    chk.failures.append(Failure('bare-temperature-query', f'get_velocity_for_temp({x!r}) with preferred unit {pu.name} gives {got} m/s, the explicit quantity {pu.name}({x!r}) gives {exp} m/s',
+                                                {'op': 'bare-query', 'preferred': pu.name, 'x': x, 'observed': got, 'expected': exp}))
+    finally:
+        pbc.PreferredUnits.defaults()
     # --- the solver launches with the velocity for the atmosphere's powder temperature
     calc = pbc.Calculator()
     for k in range(4 if chk.tier == 'quick' else 40):
@@ -156,4 +175,25 @@ def search(chk, broken):
             chk.failures.append(Failure('solver-launch', f'launch velocity {got} != velocity for powder temperature {exp}',
                                         {'op': 'solver-launch', 'v0': v0, 't0': t0, 'modifier': m, 'air': air, 'powder': pw,
                                          'observed': got, 'expected': exp}))
+        # the SAME shot object on the SAME calculator after the user changed what the launch velocity depends on
+        for step in range(3):
+            kind = rng.choice(['new-atmosphere', 'calibrate', 'toggle-sensitivity', 'new-baseline'])
+            if kind == 'new-atmosphere':
+                air = rng.uniform(-20, 35)
+                pw = rng.choice([None, rng.uniform(-20, 35)])
+                shot.atmo = pbc.Atmo(0, 29.92, U.Celsius(air), 0, None if pw is None else U.Celsius(pw))
+            elif kind == 'calibrate':
+                a.calc_powder_sens(U.MPS(v0 * rng.uniform(0.9, 0.99)), U.Celsius(t0 - rng.uniform(5, 30)))
+            elif kind == 'toggle-sensitivity':
+                a.use_powder_sensitivity = not a.use_powder_sensitivity
+            else:
+                a.mv = U.MPS(rng.uniform(300, 1000))
+            exp = a.get_velocity_for_temp(shot.atmo.powder_temp) >> U.MPS
+            got = calc.fire(shot, U.Meter(20), U.Meter(10)).trajectory[0].velocity >> U.MPS
+            evals += 1
+            if abs(got - exp) > 1e-9 * exp:
+                chk.failures.append(Failure('solver-launch-refired', f'the same Shot re-fired on the same Calculator after {kind}: launch velocity {got} m/s, the ammunition '
+                                                                     f'gives {exp} m/s for the atmosphere\'s powder temperature',
+                                            {'op': 'solver-launch-refired', 'after': kind, 'observed': got, 'expected': exp}))
+                break
     chk.search_evals += evals
